@@ -138,6 +138,13 @@ def _run_case(ctx, case):
             problems.append("result %r is not a FmtStr" % (x,))
             return
         cs = obs.cells(x)
+        try:
+            if x.s != want_text or len(x) != len(want_text):
+                problems.append("own views: .s %r len %r, str gives %r" % (x.s, len(x), want_text))
+                return
+        except Exception as ex:  # noqa
+            problems.append("own views raise %r" % (ex,))
+            return
         if obs.text_of(cs) != want_text:
             problems.append("text %r, str gives %r" % (obs.text_of(cs), want_text))
             return
